@@ -236,7 +236,7 @@ func (c *codegen) emitDebugInfo(contract []byte) *DebugInfo {
 func (c *codegen) addMethodsToDebugInfo(d *DebugInfo, fScopes iter.Seq2[string, *funcScope]) {
 	var fnames []string
 	for name, scope := range fScopes {
-		if scope.rng.Start == scope.rng.End {
+		if !scope.converted {
 			continue
 		}
 		fnames = append(fnames, name)
